@@ -265,6 +265,46 @@ def main():
             inconclusive.append(jid)
             log('INCONCLUSIVE property=%s cell=%s paths_confirmed=%s%s' % (
                 prop, jid, r.get('confirmed'), '' if r.get('exhaust_expected', True) else ' (declared bug-hunting only)'))
+    # 4b. model validation: re-run sampled confirmed paths concretely (no CrossHair, no
+    # stand-ins) and demand the same verdict: a disagreement means an engine-side model
+    # does not describe the real builtin.
+    sample_items = []
+    for jid, r in sorted(results.items()):
+        for smp in (r.get('samples') or [])[:3]:
+            if smp.get('args') is not None:
+                sample_items.append({'module': mod_name, 'fn': r['fn'], 'args': smp['args'], 'expect': smp['verdict'], 'cell': jid})
+    validated = 0
+    if sample_items and not harness_error:
+        tmpd = tempfile.mkdtemp(prefix='verif_rb_')
+        fin, fout = os.path.join(tmpd, 'in.json'), os.path.join(tmpd, 'out.json')
+        json.dump(sample_items, open(fin, 'w'))
+        env = dict(os.environ, VERIF_CONCRETE='1', VERIF_KF_ACTIVE=kf_active)
+        try:
+            subprocess.run([PY_CONCRETE, os.path.join(HERE, 'symex', 'replay_batch.py'), fin, fout], env=env, timeout=600,
+                           capture_output=True)
+            got = json.load(open(fout))
+        except Exception as e:  # noqa
+            got = None
+            harness_error.append('sample replay batch failed: %r' % (e,))
+        if got is not None:
+            for it, v in zip(sample_items, got):
+                okc = (v == 'ok' or v.startswith('known:'))
+                oks = (it['expect'] == 'ok' or it['expect'].startswith('known:'))
+                if okc == oks:
+                    validated += 1
+                else:
+                    harness_error.append('sampled path of %s does not agree concretely: symbolic %r, concrete %r, args %s' % (
+                        it['cell'], it['expect'], v, it['args']))
+        for f in (fin, fout):
+            try:
+                os.unlink(f)
+            except OSError:
+                pass
+        try:
+            os.rmdir(tmpd)
+        except OSError:
+            pass
+        log('  model validation: %d/%d sampled paths re-executed concretely with the same verdict' % (validated, len(sample_items)))
     # 5. evidence
     paths = sum(r.get('paths', 0) or 0 for r in results.values())
     confirmed_paths = sum(r.get('confirmed', 0) or 0 for r in results.values())
@@ -293,7 +333,8 @@ def main():
         'coverage': {
             'states': max(paths + len(smt_results), 0),
             'transitions': max(checks, 0),
-            'traces_validated_against_impl': replayed + len(active) + sum(q.get('validated', 0) for q in smt_results),
+            'traces_validated_against_impl': validated + len(active) + sum(q.get('validated', 0) for q in smt_results),
+            'counterexamples_replayed': replayed,
             'samples': samples or [{'note': 'no cell produced a sample'}],
             'exhaustive': all_conf,
             'explanation': 'states = execution paths explored symbolically (each path = one class of inputs '
